@@ -722,13 +722,19 @@ func (g *dgen) dialogue() []*sx.Node {
 		nodes = append(nodes, sx.Tag("node", sx.List(headers...), sx.List(body...)))
 	}
 	// duplicate title: FindNode returns the first one
-	dupOdds := 15
+	dupOdds := 5
 	if g.cfg.visitLines {
 		dupOdds = 4
 	}
 	if g.r.Intn(dupOdds) == 0 && len(nodes) > 1 {
 		// ... whatever its own headers say (the shadowed node's tracking header is nobody's business)
-		dupHeaders := []*sx.Node{sx.List(sx.Str("title"), sx.Str(g.nodes[g.r.Intn(len(g.nodes))]))}
+		// (mostly a title that is not the last one's, placed right behind the node it shadows, so that jumps to
+		// the nodes after it walk past it)
+		dupOf := g.r.Intn(len(g.nodes))
+		if len(g.nodes) > 1 && g.r.Intn(4) != 0 {
+			dupOf = g.r.Intn(len(g.nodes) - 1)
+		}
+		dupHeaders := []*sx.Node{sx.List(sx.Str("title"), sx.Str(g.nodes[dupOf]))}
 		if g.r.Intn(2) == 0 {
 			dupHeaders = append(dupHeaders, sx.List(sx.Str("tracking"), sx.Str([]string{"never", "always"}[g.r.Intn(2)])))
 		}
@@ -748,7 +754,10 @@ func (g *dgen) dialogue() []*sx.Node {
 				break
 			}
 		}
-		at := first + 1 + g.r.Intn(len(nodes)-first)
+		at := first + 1
+		if g.r.Intn(3) == 0 {
+			at = first + 1 + g.r.Intn(len(nodes)-first)
+		}
 		nodes = append(nodes[:at], append([]*sx.Node{dup}, nodes[at:]...)...)
 	}
 	return nodes
